@@ -5,7 +5,7 @@
 Require Import Base.Bytes Gen.Tables.
 Require Import Model.Util Model.Headers Model.Methods Model.Origins Model.Netip Model.Idna
   Model.Pattern Model.Radix Model.CfgErrors Model.Config Model.Serve Model.Mw.
-Require Import Spec.Origins Spec.AcrhList Spec.Wire Spec.Fetch Spec.ConfigDoc.
+Require Import Spec.Origins Spec.AcrhList Spec.Wire Spec.Fetch Spec.ConfigDoc Spec.DebugSM.
 Open Scope N_scope.
 Import Coq.Strings.String.StringSyntax.
 Arguments b _%string_scope.
@@ -339,6 +339,161 @@ Definition run_config (x : sx) : sx :=
       end
   end.
 
+(* ---------- hist: operation histories with the state observed after every step (C08, C09) ---------- *)
+(* an observation: (err B) (debug B) (config cfg|nil) (outs (outcome...)) *)
+Definition dec_op (x : sx) : option (op * sm_op) :=
+  match x with
+  | SL [SY n; v] =>
+      if beqb n (b "setdebug") then Some (OSetDebug (get_bool v), SmSetDebug (get_bool v))
+      else if beqb n (b "reconf") then
+        match dec_config v with
+        | None => Some (OReconfigure None, SmReconfNil)
+        | Some c => Some (OReconfigure (Some c), SmReconf true)   (* success flag patched from the observation *)
+        end
+      else None
+  | _ => None
+  end.
+
+Definition enc_obs (err : bool) (st : mstate) (probes : list request) : sx :=
+  SL [SL [sym "err"; sbool err]; SL [sym "debug"; sbool (snd st)];
+      SL [sym "config"; match mw_config st with Some c => enc_config c | None => sym "nil" end];
+      SL [sym "outs"; SL (map (fun r => enc_outcome (mw_serve st r [])) probes)]].
+
+Fixpoint model_trace (st : mstate) (ops : list op) (probes : list request) : list sx :=
+  match ops with
+  | [] => []
+  | o :: r =>
+      let '(st', e) := step ace ip6 psl st o in
+      enc_obs (match e with Some _ => true | None => false end) st' probes :: model_trace st' r probes
+  end.
+
+(* the state part of an observation: everything but the error flag *)
+Definition obs_state (x : sx) : sx := SL (tl (get_list x)).
+Definition obs_err (x : sx) : bool := get_bool (field "err" (get_list x)).
+Definition obs_debug (x : sx) : bool := get_bool (field "debug" (get_list x)).
+
+Fixpoint c08_ok (prev : sx) (ops : list sx) (obs : list sx) : bool :=
+  match ops, obs with
+  | o :: ops', x :: obs' =>
+      (match o with
+       | SL [SY n; v; SY lbl] =>
+           (* a Reconfigure labelled invalid must fail and leave every observable as it was *)
+           if beqb n (b "reconf") && beqb lbl (b "invalid")
+           then obs_err x && sx_eqb (obs_state prev) (obs_state x) else true
+       | _ => true
+       end) && c08_ok x ops' obs'
+  | _, _ => true
+  end.
+
+Definition sm_of (o : sx) (x : sx) : sm_op :=
+  match o with
+  | SL (SY n :: v :: _) =>
+      if beqb n (b "setdebug") then SmSetDebug (get_bool v)
+      else match v with SY _ => SmReconfNil | _ => SmReconf (negb (obs_err x)) end
+  | _ => SmReconfNil
+  end.
+
+Fixpoint c09_ok (s : sm_state) (ops : list sx) (obs : list sx) : bool :=
+  match ops, obs with
+  | o :: ops', x :: obs' =>
+      let s' := sm_step s (sm_of o x) in
+      Bool.eqb (snd s') (obs_debug x) &&
+      Bool.eqb (fst s') (negb (is_sym "nil" (field "config" (get_list x)))) &&
+      c09_ok s' ops' obs'
+  | _, _ => true
+  end.
+
+Definition run_hist (x : sx) : sx :=
+  let l := get_list x in
+  let initx := field "init" l in
+  let opsx := get_list (field "ops" l) in
+  let probes := map dec_request (get_list (field "probes" l)) in
+  let obs := get_list (field "obs" l) in          (* obs[0] = initial state, then one per op *)
+  let want := get_list (field "want" l) in
+  let init : option mstate :=
+    match dec_config initx with
+    | None => Some zero_mw
+    | Some c => fst (mw_new ace ip6 psl c)
+    end in
+  match init, obs with
+  | Some st0, o0 :: orest =>
+      let ops := flat_map (fun o => match dec_op (match o with SL (a :: v :: _) => SL [a; v] | _ => o end) with
+                                    | Some (m, _) => [m] | None => [] end) opsx in
+      let mt := enc_obs false st0 probes :: model_trace st0 ops probes in
+      let configured0 := negb (is_sym "nil" initx) in
+      verdict (sx_eqb (SL mt) (SL obs))
+              ((if has_sym "c08" want then c08_ok o0 opsx orest else true) &&
+               (if has_sym "c09" want then
+                  negb (obs_debug o0) && c09_ok (sm_init configured0) opsx orest else true))
+              (SL mt)
+  | _, _ => verdict false true (sym "model-rejects-initial-config")
+  end.
+
+(* ---------- roundtrip: Config() fed back (C06) ---------- *)
+Definition run_roundtrip (x : sx) : sx :=
+  let l := get_list x in
+  let probes := map dec_request (get_list (field "probes" l)) in
+  let impl_cfgs := get_list (field "configs" l) in     (* Config() of: New(c); after Reconfigure(Config()); after a second one *)
+  let reconf_ok := get_bool (field "reconfok" l) in
+  let outs := get_list (field "outs" l) in             (* per middleware (New c, New Config(), zero+Reconfigure) x debug: list of outcomes *)
+  match dec_config (field "cfg" l) with
+  | None => verdict false false (sym "bad-config")
+  | Some c =>
+      match new_internal_config ace ip6 psl c with
+      | inr _ => verdict false true (sym "model-rejects-config")
+      | inl ic =>
+          let c1 := new_config ic in
+          match new_internal_config ace ip6 psl c1 with
+          | inr _ => verdict false (reconf_ok) (sym "model-rejects-Config()")
+          | inl ic1 =>
+              let c2 := new_config ic1 in
+              let c3 := match new_internal_config ace ip6 psl c2 with inl ic2 => new_config ic2 | inr _ => c2 end in
+              let mo := fun (i : icfg) (d : bool) => SL (map (fun r => enc_outcome (serve (Some i) d r [])) probes) in
+              let model_outs := [mo ic false; mo ic true; mo ic1 false; mo ic1 true; mo ic false; mo ic true] in
+              let all_same := match outs with
+                              | a0 :: a1 :: b0 :: b1 :: z0 :: z1 :: _ =>
+                                  sx_eqb a0 b0 && sx_eqb a0 z0 && sx_eqb a1 b1 && sx_eqb a1 z1
+                              | _ => false
+                              end in
+              let stable := match impl_cfgs with
+                            | _ :: k2 :: k3 :: _ => sx_eqb k2 k3
+                            | _ => false
+                            end in
+              verdict (sx_eqb (SL [enc_config c1; enc_config c2; enc_config c3]) (SL impl_cfgs) &&
+                       sx_eqb (SL model_outs) (SL outs))
+                      (reconf_ok && all_same && stable)
+                      (SL [enc_config c1; enc_config c2; enc_config c3])
+          end
+      end
+  end.
+
+(* ---------- pattern: ParsePattern on labelled strings (C13) ---------- *)
+Definition enc_kind (k : pkind) : sx :=
+  match k with KDomain => sym "domain" | KNonLoopbackIP => sym "ip" | KLoopbackIP => sym "loopback" | KSubdomains => sym "subdomains" end.
+
+Definition run_pattern (x : sx) : sx :=
+  let l := get_list x in
+  let raw := get_bytes (field "raw" l) in
+  let label := field "label" l in                      (* valid | defect | grey *)
+  let impl := field "impl" l in                        (* (ok scheme value kind port) | (err reason value) *)
+  let selfmatch := get_bool (field "selfmatch" l) in   (* implementation: ACAO echoed when the pattern is sent as Origin *)
+  let wildfree := get_bool (field "wildfree" l) in
+  let m := match parse_pattern ace ip6 raw with
+           | inl p => SL [sym "ok"; SB (pscheme p); SB (pvalue p); enc_kind (pkind_of p); SI (pport p)]
+           | inr r => SL [sym "err"; enc_reason r; SB raw]
+           end in
+  let impl_ok := match impl with SL (SY n :: _) => beqb n (b "ok") | _ => false end in
+  let model_self := match parse_pattern ace ip6 raw, parse raw with
+                    | inl p, Some o => tree_contains (tree_insert empty_tree p) o
+                    | _, _ => false
+                    end in
+  let holds :=
+    if is_sym "valid" label then impl_ok && (negb wildfree || selfmatch)
+    else if is_sym "defect" label then
+      negb impl_ok && match impl with SL [_; _; SB v] => beqb v raw | _ => false end
+    else true in
+  verdict (sx_eqb m impl && (negb (impl_ok && wildfree) || Bool.eqb model_self selfmatch)) holds m.
+
 (* dispatcher: a case is (family id (k v)...) *)
 Definition run_case (x : sx) : sx :=
   match x with
@@ -351,6 +506,9 @@ Definition run_case (x : sx) : sx :=
         else if beqb fam (b "pair") then run_pair (SL body)
         else if beqb fam (b "intent") then run_intent (SL body)
         else if beqb fam (b "config") then run_config (SL body)
+        else if beqb fam (b "hist") then run_hist (SL body)
+        else if beqb fam (b "roundtrip") then run_roundtrip (SL body)
+        else if beqb fam (b "pattern") then run_pattern (SL body)
         else SL [sbool false; sbool false; sym "unknown-family"] in
       SL [id; r]
   | _ => SL [sym "bad-case"]
